@@ -379,6 +379,24 @@ Section Coders.
     | _, _ => True
     end.
 
+  (* (c) a pointer to a value that itself prints as null (a nil slice, map or
+         pointer): null comes back as the nil pointer *)
+  Fixpoint prints_null (v : gval) : bool :=
+    match v with
+    | GSlice None | GMap None | GPtr None => true
+    | GPtr (Some p) => prints_null p
+    | _ => false
+    end.
+  Fixpoint ptr_ok (t : fty) (v : gval) {struct t} : Prop :=
+    match t, v with
+    | TSlice e, GSlice (Some l) => Forall (ptr_ok e) l
+    | TMap e, GMap (Some l) => Forall (fun kv => ptr_ok e (snd kv)) l
+    | TPtr e, GPtr (Some p) => ptr_ok e p /\ prints_null p = false
+    | TStruct fs, GStruct vs => all2 (fun fd v => ptr_ok (fd_ty fd) v) fs vs
+    | _, _ => True
+    end.
+  Definition lossless (t : fty) (v : gval) : Prop := survives t v /\ ptr_ok t v.
+
   (* the Type / Kind members of a Stats value *)
   Fixpoint member (name : string) (fs : list fdecl) (vs : list gval) : option gval :=
     match fs, vs with
@@ -394,4 +412,37 @@ Section Coders.
   Definition own_tag (t : stats_ty) (v : gval) : Prop :=
     exists req, In (str_member_of "type" t v, req) (stats_tags t) /\
                 kind_ok req (str_member_of "kind" t v).
+  Fixpoint set_member (name : string) (x : gval) (fs : list fdecl) (vs : list gval) : list gval :=
+    match fs, vs with
+    | fd :: fs', v :: vs' =>
+        if String.eqb (fd_json fd) name then x :: vs' else v :: set_member name x fs' vs'
+    | _, _ => vs
+    end.
+  (* the zero value of a Stats type but for its Type (and Kind) member *)
+  Definition stats_zero (t : stats_ty) (tag kind : string) : gval :=
+    match zero_of (stats_fty t) with
+    | GStruct vs => GStruct (set_member "kind" (GStr kind) (shape_of t)
+                               (set_member "type" (GStr tag) (shape_of t) vs))
+    | other => other
+    end.
 End Coders.
+
+(* ------------------------------------------------------------------ *)
+(* a concrete instance, used by the correspondence runs (Check/C38.v) and by
+   the witnesses: a float64 is its bit pattern; a number literal is what
+   strconv makes of it as an integer and as a float64 (either may fail) *)
+Definition cnum : Type := (option Z * option Z)%type.
+Definition c_num_of_int (z : Z) : cnum := (Some z, None).
+Definition c_num_of_flt (f : Z) : cnum := (None, Some f).
+Definition c_int_of_num (n : cnum) : option Z := fst n.
+Definition c_flt_of_num (n : cnum) : option Z := snd n.
+Definition c_fzero : Z := 0.
+Definition c_fis_zero (f : Z) : bool := orb (Z.eqb f 0) (Z.eqb f (2 ^ 63)).   (* +0 and -0 *)
+
+Definition c_marshal := marshal cnum Z c_num_of_int c_num_of_flt c_fis_zero.
+Definition c_unmarshal := unmarshal cnum Z c_int_of_num c_flt_of_num c_fzero.
+Definition c_marshal_stats := marshal_stats cnum Z c_num_of_int c_num_of_flt c_fis_zero.
+Definition c_unmarshal_stats := unmarshal_stats cnum Z c_int_of_num c_flt_of_num c_fzero.
+Definition c_stats_roundtrip (t : stats_ty) (v : gval Z) : result (stats_ty * gval Z) :=
+  rbind (c_marshal_stats t v) c_unmarshal_stats.
+
